@@ -5,6 +5,7 @@ package main
 
 import (
 	"flag"
+	"go/ast"
 	"fmt"
 	"os"
 	"path/filepath"
@@ -48,7 +49,31 @@ func main() {
 	noEvidence := flag.Bool("no-evidence", false, "do not write evidence files (used by the self-test on scratch copies)")
 	expect := flag.String("expect", "", "self-test: comma separated rule[:construct-substring] that must fire; exit 0 iff all fire")
 	only := flag.String("only", "", "run only this rule of the property (replay)")
+	dumpfn := flag.String("dumpfn", "", "debug: print the symbolic paths of a function (Recv.Name)")
+	dumphnd := flag.String("dumphnd", "", "debug: print the handler summary of an opcode constant")
 	flag.Parse()
+	if *dumpfn != "" || *dumphnd != "" {
+		ctx, err := loadRepo(*repo, nil)
+		if err != nil {
+			fmt.Println(err)
+			os.Exit(2)
+		}
+		if *dumphnd != "" {
+			m, err := newHndMachine(ctx)
+			if err != nil {
+				fmt.Println(err)
+				os.Exit(2)
+			}
+			ps, err := m.single(*dumphnd)
+			fmt.Println(err)
+			for _, p := range ps {
+				fmt.Println(" ", p.String())
+			}
+			return
+		}
+		debugDump(ctx, *dumpfn)
+		return
+	}
 
 	if *list {
 		var ids []string
@@ -234,3 +259,33 @@ func runRule(ctx *Ctx, fn ruleDef) (r *R) {
 }
 
 var triageDir string
+
+func debugDump(c *Ctx, name string) {
+	fd := c.Func(name)
+	if fd == nil {
+		fmt.Println("no such function")
+		return
+	}
+	in := newInterp(c)
+	in.NoLin = false
+	dumpPaths(c, in, in.ExecFunc(fd, nil), 0)
+}
+
+func dumpPaths(c *Ctx, in *Interp, paths []*State, depth int) {
+	ind := strings.Repeat("  ", depth)
+	for i, p := range paths {
+		fmt.Printf("%spath %d [%s] done=%s\n", ind, i, condStrings(p), p.Done)
+		for _, e := range p.Eff {
+			fmt.Printf("%s   eff %s\n", ind, e.String())
+		}
+		for _, r := range p.Ret {
+			fmt.Printf("%s   ret %s\n", ind, r.String())
+			if r.Op == "func" && depth < 2 {
+				fl := r.Aux.(*ast.FuncLit)
+				st := p.Clone()
+				st.Done, st.Ret, st.Eff = "", nil, nil
+				dumpPaths(c, in, in.ExecLit(fl, st, nil), depth+1)
+			}
+		}
+	}
+}
